@@ -15,7 +15,7 @@ import (
 func init() { props["C12"] = runC12 }
 
 func runC12(h *hx.H) {
-	h.Rule = "every byte string of length <=2 over all 256 values and <=4 over a 24-byte structural alphabet (quick; <=3 over 256 and <=5 over the alphabet thorough), every token string of <=4 (quick) / <=5 (thorough) tokens over a 30-token alphabet, every string of <=3 (thorough 4) tokens over an 18-token alphabet with invalid tokens (stray characters, bad escapes, bad numerals, unterminated literals) joined by every choice of six separators (space, newline, line comment, block comment, tab+comment+CRLF, nothing) bare and inside a message body, every single-token deletion / duplication / replacement and every truncation at a token boundary of the testdata corpus (smallest files in quick), nesting towers to depth 40; oracle: no panic in Parse / ResultFromAST, AST non-nil, error returned iff an error was reported (both reporter modes), every reported position inside the file; non-trivial = input on which the parser reported at least one error yet produced an AST"
+	h.Rule = "every byte string of length <=2 over all 256 values and <=4 over a 24-byte structural alphabet (quick; <=3 over 256 and <=5 over the alphabet thorough), every token string of <=4 (quick) / <=5 (thorough) tokens over a 30-token alphabet, every message literal of <=2 (thorough 3) fields over 10 names (incl. malformed bracketed ones), optional colon, 9 values and 3 separators, every string of <=3 (thorough 4) tokens over an 18-token alphabet with invalid tokens (stray characters, bad escapes, bad numerals, unterminated literals) joined by every choice of six separators (space, newline, line comment, block comment, tab+comment+CRLF, nothing) bare and inside a message body, every single-token deletion / duplication / replacement and every truncation at a token boundary of the testdata corpus (smallest files in quick), nesting towers to depth 40; oracle: no panic in Parse / ResultFromAST, AST non-nil, error returned iff an error was reported (both reporter modes), every reported position inside the file; non-trivial = input on which the parser reported at least one error yet produced an AST"
 	run := func(src []byte) {
 		idx, ok := h.NextN()
 		if !ok {
@@ -66,6 +66,35 @@ func runC12(h *hx.H) {
 		}
 	}
 	recMix("", 0)
+	// message literals: every sequence of <=2 (thorough 3) fields whose name, colon, value and
+	// separator are drawn from small sets that include malformed bracketed names (the grammar's
+	// error-recovery productions)
+	litNames := []string{"a", "[a.b]", "[x.y/a.b]", "[1]", "[.]", "[a.b/]", "[]", "[a", "1", "\"s\""}
+	litColons := []string{":", ""}
+	litValues := []string{"1", "\"s\"", "{ b: 1 }", "< b: 1 >", "[1, 2]", "[", "-", "x", ""}
+	litSeps := []string{"", ",", ";"}
+	nLit := 2
+	if h.Thorough() {
+		nLit = 3
+	}
+	var recLit func(prefix string, n int)
+	recLit = func(prefix string, n int) {
+		for _, nm := range litNames {
+			for _, co := range litColons {
+				for _, va := range litValues {
+					for _, se := range litSeps {
+						body := strings.TrimSpace(prefix + " " + nm + co + " " + va + se)
+						run([]byte("option (foo) = { " + body + " };\n"))
+						run([]byte("message M { optional int32 f = 1 [(o) = < " + body + " >]; }\n"))
+						if n+1 < nLit && co == ":" && (va == "1" || va == "{ b: 1 }") {
+							recLit(body, n+1)
+						}
+					}
+				}
+			}
+		}
+	}
+	recLit("", 0)
 	// corpus mutants
 	names, texts := corpus()
 	limit := 60000
